@@ -220,6 +220,13 @@ def _classify_decl(stmt: str) -> dict | None:
     ty = " ".join(tys) if tys else "int"
     if ty == "void":                      # `void f();` is a prototype, not an object
         return {"k": "proto", "n": name, "t": s[:80]}
+    if cut < len(s) and s[cut] == "(":
+        # `float dist();` / `int f(int x, float y);` declare functions: empty parentheses, or every argument is a
+        # `type name` pair (an object definition passes values: `LiquidCrystal lcd(22, 23, ...)`)
+        inner = s[cut + 1:s.rfind(")")] if ")" in s[cut:] else ""
+        pieces = [x.strip() for x in inner.split(",")] if inner.strip() else []
+        if all(re.match(r"^(?:const\s+)?[A-Za-z_][\w:<>\s\*&]*[\s\*&]+[A-Za-z_]\w*$", x) for x in pieces):
+            return {"k": "proto", "n": name, "t": s[:80]}
     return {"k": "global", "n": name, "t": ty}
 
 
